@@ -1,5 +1,4 @@
-import CentrifugeVerif.Proofs.RedisLua
-import CentrifugeVerif.Gen.Lua.MapBrokerStreamRead
+import CentrifugeVerif.Proofs.RedisMapRead
 import CentrifugeVerif.Gen.Lua.BrokerHistoryStream
 /-!
 # C23 — Redis and Memory map brokers agree (Redis half: theorems about the translated scripts)
@@ -23,27 +22,7 @@ Decided witnesses: the Lua number formatting facts behind findings C23-11 / C23-
 -/
 namespace CentrifugeVerif.C23
 open CentrifugeVerif CentrifugeVerif.Redis CentrifugeVerif.Lua CentrifugeVerif.LuaRedis CentrifugeVerif.Gen.Lua
-
-/-- the argument vector of `map_broker_stream_read.lua` -/
-structure ReadArgs where
-  includePubs : String
-  since : String
-  limit : String
-  reverse : String
-  metaExp : String
-  fresh : String
-
-def ReadArgs.argv (a : ReadArgs) : LVal :=
-  .tbl [.str a.includePubs, .str a.since, .str a.limit, .str a.reverse, .str a.metaExp, .str a.fresh]
-
-def keys2 (sk mk : String) : LVal := .tbl [.str sk, .str mk]
-
-def HashAt (s : Redis) (k : String) (h : List (String × String)) : Prop := getHash s k = .ok h
-
-/-- the script from its third part on, with the epoch and top offset the first parts determined -/
-abbrev P2 (sk mk : String) (a : ReadArgs) (smeta ep top : LVal) : RedisM LVal :=
-  map_broker_stream_read_p2 (keys2 sk mk) a.argv (.str sk) (.str mk) (.str a.includePubs) (.str a.since)
-    (.str a.limit) (.str a.reverse) (.str a.metaExp) (.str a.fresh) smeta ep top
+open CentrifugeVerif.MapRead
 
 /-- No epoch in the meta hash: the epoch is created from `new_epoch_if_empty`, the top offset is 0 and
 the stream key is deleted before anything is read. -/
